@@ -52,12 +52,12 @@ func (t *ipT) Measure(ctx context.Context, n *Net) (MeasureResult, error) {
 		&net.UDPAddr{IP: na.Addr().AsSlice(), Port: int(na.Port())})
 	return MeasureResult{ts, off, err}, nil
 }
-func (t *ipT) Unwrap(b []byte) ([]byte, *Meta, error)      { return b, &Meta{}, nil }
-func (t *ipT) Wrap(ntp []byte, m *Meta, v string) []byte   { return ntp }
-func (t *ipT) Prev() client.VerifPrev                      { return t.c.VerifPrev() }
-func (t *ipT) SetPrev(p client.VerifPrev)                  { t.c.VerifSetPrev(p) }
-func (t *ipT) ResetIL()                                    { t.c.ResetInterleavedMode() }
-func (t *ipT) InIL() bool                                  { return t.c.InInterleavedMode() }
+func (t *ipT) Unwrap(b []byte) ([]byte, *Meta, error)    { return b, &Meta{}, nil }
+func (t *ipT) Wrap(ntp []byte, m *Meta, v string) []byte { return ntp }
+func (t *ipT) Prev() client.VerifPrev                    { return t.c.VerifPrev() }
+func (t *ipT) SetPrev(p client.VerifPrev)                { t.c.VerifSetPrev(p) }
+func (t *ipT) ResetIL()                                  { t.c.ResetInterleavedMode() }
+func (t *ipT) InIL() bool                                { return t.c.InInterleavedMode() }
 
 // --------------------------------------------------------------------- SCION
 type scionT struct {
@@ -151,21 +151,29 @@ func (t *scionT) Wrap(ntp []byte, m *Meta, v string) []byte {
 	}
 	return append([]byte{}, buffer.Bytes()...)
 }
-func (t *scionT) Prev() client.VerifPrev   { return t.c.VerifPrev() }
+func (t *scionT) Prev() client.VerifPrev     { return t.c.VerifPrev() }
 func (t *scionT) SetPrev(p client.VerifPrev) { t.c.VerifSetPrev(p) }
-func (t *scionT) ResetIL()                 { t.c.ResetInterleavedMode() }
-func (t *scionT) InIL() bool               { return t.c.InInterleavedMode() }
+func (t *scionT) ResetIL()                   { t.c.ResetInterleavedMode() }
+func (t *scionT) InIL() bool                 { return t.c.InInterleavedMode() }
 
 func newTransport(kind string, n *Net) Transport {
 	log := slog.New(chanHandler{n.Logs})
 	if kind == "scion" {
 		na := n.N.addr()
+		c := &client.SCIONClient{Log: log, InterleavedMode: true}
+		if n.Filter != nil {
+			c.Filter = n.Filter
+		}
 		return &scionT{
-			c:      &client.SCIONClient{Log: log, InterleavedMode: true},
+			c:      c,
 			local:  udp.UDPAddr{IA: testIA, Host: &net.UDPAddr{IP: net.ParseIP("127.0.0.1").To4()}},
 			remote: udp.UDPAddr{IA: testIA, Host: &net.UDPAddr{IP: na.Addr().AsSlice(), Port: int(na.Port())}},
 			ifs:    []snet.PathInterface{{IA: testIA, ID: 1}, {IA: testIA, ID: 2}},
 		}
 	}
-	return &ipT{c: &client.IPClient{Log: log, InterleavedMode: true}}
+	c := &client.IPClient{Log: log, InterleavedMode: true}
+	if n.Filter != nil {
+		c.Filter = n.Filter
+	}
+	return &ipT{c: c}
 }
